@@ -522,7 +522,14 @@ fn revocation_key<B: BufRead>(mut i: B) -> Result<SubpacketData> {
 /// Ref: https://www.rfc-editor.org/rfc/rfc9580.html#name-notation-data
 fn notation_data<B: BufRead>(mut i: B) -> Result<SubpacketData> {
     // Flags
-    let readable = i.read_u8().map(|v| v == 0x80)?;
+    // Only the "human-readable" flag (0x80) is defined, all other flag bits must be zero.
+    // (The flags are written back from `readable`, so other values must not be accepted:
+    // the hashed octets would not be the ones that were read.)
+    let readable = match i.read_u8()? {
+        0x80 => true,
+        0x00 => false,
+        v => bail!("invalid notation flags {:#04x}", v),
+    };
     i.read_tag(&[0, 0, 0])?;
     let name_len = i.read_be_u16()?;
     let value_len = i.read_be_u16()?;
